@@ -747,7 +747,27 @@ def spell(repo):
             res.add(f"spell|pair|{a}|{b}", f"member schemas `{a}` and `{b}` can produce the same identifier `{witness}` "
                     f"({how}); both names are legal in one structure and the generated class declares the identifier twice",
                     TEMPLATES, tp["structure_single_field_method_declarations"]["line"])
-    res.samples = [f"constants: {sorted(constants)[:6]}", f"pairs: {[(a, b) for a, b, _, _ in pairs]}"]
+    # C. template parameters of the generated classes: inside `template <class P> class Generic${name}View`, P hides a
+    # namespace or type called P.  The per-type namespace of a structure is named after the structure, and the templates
+    # refer to it relatively (`${parent_type}::${name}()`), so a structure (or nested enum) named P breaks the header.
+    tparams = set()
+    for name_, t in tp.templates.items():
+        # class-level parameters only: a parameter of a member template (`template <class Stream> void Write...`) is in
+        # scope in that member alone, where the templates make no relative reference (checked with g++ for Stream,
+        # OtherStorage, IntT, ValueType, Enum, View: all compile)
+        for mm in re.finditer(r"template\s*<\s*(?:class|typename)\s+([A-Z]\w*)\s*>\s*class\s+Generic", t["text"]):
+            tparams.add(mm.group(1))
+    relative = any(re.search(r"(?<![:\w])\$\{parent_type\}::", t["text"]) for t in tp.templates.values())
+    if not tparams:
+        raise AnalysisError("no class-level template parameter of the generated view classes recognised")
+    for tpn in sorted(tparams):
+        res.instances += 1
+        if relative and spellable(tpn, "CamelWord"):
+            res.add(f"spell|template-parameter|{tpn}", f"the generated view classes are templates over `{tpn}`, and `{tpn}` is a legal Emboss type "
+                    f"name: for `struct {tpn}` the relative references `{tpn}::...` to the type's namespace name the template parameter "
+                    f"instead, and a nested `enum {tpn}` re-declares it (`using {tpn} = ...`); the header does not compile",
+                    TEMPLATES, tp["structure_view_class"]["line"])
+    res.samples = [f"constants: {sorted(constants)[:6]}", f"pairs: {[(a, b) for a, b, _, _ in pairs]}", f"template parameters: {sorted(tparams)}"]
     res.analysed = [TEMPLATES, HG, G.TOKENIZER, "compiler/front_end/reserved_words"]
     return res
 
